@@ -103,8 +103,16 @@ def main(d, tier):
   if d == 1:
     shape = (2, 3, 2)
     xs = jnp.arange(np.prod(shape), dtype=jnp.float32).reshape(shape) + 1
+    axes_list = []
     for r in (1, 2, 3):
-      for axis in itertools.permutations(range(3), r):
+      for perm in itertools.permutations(range(3), r):
+        axes_list.append(perm)
+        axes_list.append(tuple(a - 3 for a in perm))                  # all negative
+        if r > 1:
+          axes_list.append((perm[0],) + tuple(a - 3 for a in perm[1:]))   # mixed
+    for axis in axes_list:
+      r = len(axis)
+      if True:
         for keepdims in (False, True):
           for unroll in ((1,), (2,)) if tier == 'thorough' else ((1,),):
             def body(c, x):
